@@ -300,6 +300,8 @@ def gen_program(rng, n_tasks=None, p_fail=0.12, p_guard=0.3, p_publish=0.6, p_cm
                     rt['guard'] = gen_expr(rng, p_bad=p_bad, bool_only=True)
     if rng.random() < 0.6:
         prog['output'] = {'o%d' % i: ['var', rng.choice(VARS + ['x'])] for i in range(rng.randint(1, 2))}
+    if rng.random() < 0.85:
+        make_single_activation(prog)
     return prog
 
 
